@@ -33,7 +33,7 @@ REACH = [(m, r) for m in ALL_MODES for r in ('full_ring', 'dtor_while_running', 
 
 MC_Q = [('MC_WorkPool_quick.cfg', 4)]
 MC_T = MC_Q + [('MC_WorkPool_3a_thorough.cfg', 3), ('MC_WorkPool_4a_thorough.cfg', 4), ('MC_WorkPool_4b_thorough.cfg', 6),
-               ('MC_WorkPool_ext_thorough.cfg', 3), ('MC_WorkPool_live_thorough.cfg', 2)]
+               ('MC_WorkPool_ext_thorough.cfg', 3), ('MC_WorkPool_w3_thorough.cfg', 4), ('MC_WorkPool_live_thorough.cfg', 2)]
 # per thread mode: the general random programs and the "x" flavour (an externally joined vCPU next to one owned vCPU, long sleeps)
 MODES_Q = [(m, [(m, 60), (m + 'x', 25)]) for m in ALL_MODES]
 MODES_T = [(m, [(m, 700), (m + 'x', 150)]) for m in ALL_MODES]
